@@ -104,7 +104,11 @@ class Driver:
                 accepted = r is None
                 self.sub = (ev[1], p, ev[2], accepted)
                 if not accepted:
+                    # the Deferred chain of the legacy step_0: step_1 returned a Failure
+                    # -> errback failure() -> (returns None) -> next callback step_3
                     p.failure(r)
+                    if ev[1] == 'legacy':
+                        p.step_3(None)
                     self.sub = None
                     self.refused = p
             elif kind == 's3':
@@ -115,6 +119,8 @@ class Driver:
                 _fl, p, _prio, _a = self.sub
                 self.sub = None
                 p.failure(None)
+                if _fl == 'legacy':
+                    p.step_3(None)      # the chain goes on after failure() (see s1)
                 self.refused = p
             elif kind == 'late-failure':
                 self.nlate += 1
